@@ -44,7 +44,8 @@ class AsciiComplex(Adapter):
         super().__init__(base)
 
     def _decode(self, obj, context, path):
-        return obj.real + 1j * obj.imaginary
+        # not `real + 1j * imaginary`: that turns (x, nan) and (x, inf) into a nan real part and drops the sign of -0.0
+        return complex(obj.real, obj.imaginary)
 
     def _encode(self, obj, context, path):
         raise NotImplementedError
